@@ -1,5 +1,5 @@
 """thorough tier extras: second solver seed (brittleness), 32-bit usize pass, big-endian target pass, R1 cross-check"""
-import json
+import json, os
 def run(prop, pcfg, units, runs, seed, run_unit, Undecided):
     report = {}
     out = {'fails': [], 'undecided': [], 'obligations': [], 'report': report}
@@ -41,4 +41,25 @@ def run(prop, pcfg, units, runs, seed, run_unit, Undecided):
         if rc_.get('status') == 'mismatch':
             out['undecided'].append({'message': "the extractor's expansion of safe_from! differs from rustc's (-Zunpretty=expanded): %s" % json.dumps(rc_.get('functions'))[:600],
                                      'fn': None, 'module': 'endian', 'kind': 'extraction'})
+    # (5) bounded cross-validation: the executable oracles paired with this property's obligations (the same harnesses the replay
+    #     search uses) are run against the CURRENT tree.  A counterexample that replays on the real crate is a violation with a
+    #     concrete input; 'no counterexample within the bound' is recorded as a BOUNDED result and never counted as proved.
+    hs = list(pcfg.get('replay_harnesses_thorough', []))
+    if hs and not os.environ.get('VERIF_NO_REPLAY_SEARCH'):
+        import replay_search
+        from concurrent.futures import ThreadPoolExecutor
+        allh = dict(replay_search.HARNESS); allh.update(replay_search.struct_harnesses())
+        if 'c02_*' in hs: hs = [h for h in hs if h != 'c02_*'] + sorted(h for h in allh if h.startswith('c02_'))
+        def one(h):
+            try: return h, replay_search.search(h, timeout=int(os.environ.get('VERIF_REPLAY_TIMEOUT_THOROUGH', '900')))
+            except Exception as e: return h, {'status': 'search-error: %s' % e}
+        with ThreadPoolExecutor(max_workers=4) as tp:
+            res = dict(tp.map(one, hs))
+        report['bounded_oracle_runs'] = {h: {k: v for k, v in r.items() if k in ('status', 'bound', 'wall_s', 'inputs', 'replay_output')} for h, r in res.items()}
+        for h, r in sorted(res.items()):
+            out.setdefault('bounded', []).append({'harness': 'replay:' + h, 'bound': r.get('bound', '?'), 'status': r.get('status'), 'counted_as_proved': False})
+            if r.get('status') == 'replayed-fails':
+                out['fails'].append({'kind': 'bounded-oracle', 'message': 'the executable oracle %s fails on the real crate for a concrete input: %s' % (h, (r.get('replay_output') or '')[:300]),
+                                     'fn': h, 'module': 'kani', 'src': 'kani/replay_src/checks.rs', 'line': 0, 'rendered': r.get('replay_output', ''), 'canary': None, 'labels': [],
+                                     'obligation': 'bounded:replay:' + h, 'props': [prop], 'clause': None, 'cmd': r.get('kani_cmd', ''), '_search': dict(r, harness=h)})
     return out
